@@ -188,7 +188,35 @@ fn finder_machine_al(a: &[&str], rev: bool, alias: Option<usize>) -> Option<Stri
     crate::vreset();
     verif::set_trace(false);
     for (i, op) in ops.iter().enumerate() {
-        if op.starts_with("f:") {
+        if op.starts_with("s:") || op.starts_with("j:") {
+            // a sub-slice `[hoff, hoff+hlen)` of the buffer the needle is borrowed from
+            let (hb, hp) = hays[alias_at?].as_ref()?;
+            let mut it = op[2..].split(':');
+            let ho: usize = it.next()?.parse().ok()?;
+            let hl: usize = it.next()?.parse().ok()?;
+            if ho + hl > hb.len() {
+                return None;
+            }
+            let sub = &hp.slice()[ho..ho + hl];
+            let subb = &hb[ho..ho + hl];
+            if op.starts_with("s:") {
+                let (r, al) = alloc_probe::measure(|| match &cur {
+                    H::F(f) => f.find(sub),
+                    H::R(f) => f.rfind(sub),
+                });
+                total_allocs += al;
+                out.push(fmt_opt(r));
+                oracle.push(fmt_opt(if rev { naive_rfind(subb, &needle) } else { naive_find(subb, &needle) }));
+            } else {
+                let (k, al) = alloc_probe::measure(|| match &cur {
+                    H::F(f) => f.find_iter(sub).count(),
+                    H::R(f) => f.rfind_iter(sub).count(),
+                });
+                total_allocs += al;
+                out.push(k.to_string());
+                oracle.push(greedy_count(subb, &needle, rev).to_string());
+            }
+        } else if op.starts_with("f:") {
             let (hb, hp) = hays[same_as[i].unwrap_or(i)].as_ref().unwrap();
             let (r, al) = alloc_probe::measure(|| match &cur {
                 H::F(f) => f.find(hp.slice()),
